@@ -48,6 +48,27 @@ def normalize_results(S, fmap=None):
             table[e.result] = e
     memo = {}
     ordinals = {}
+    # try statements are numbered in program order (their ids are issued in that order)
+    tids = set()
+
+    def _scan(v):
+        if isinstance(v, tuple):
+            for n in sym.walk(v):
+                if n[0] == "raised" and len(n) == 3:
+                    tids.add(n[1])
+    for e in S.events:
+        for a, _p in e.guard:
+            _scan(a)
+        for attr in ("value", "index", "base", "recv"):
+            _scan(getattr(e, attr, None))
+        for a in (getattr(e, "args", None) or ()):
+            _scan(a)
+    for st_, rv_ in S.exits:
+        for a, _p in st_.guard:
+            _scan(a)
+        _scan(rv_)
+    for k, t in enumerate(sorted(tids, key=lambda x: (str(type(x)), x))):
+        ordinals[("raised", t)] = k
 
     def ordinal(tag, name):
         k = (tag, name)
@@ -82,7 +103,8 @@ def normalize_results(S, fmap=None):
             if v and v[0] in ("wl", "wlout", "lc") and len(v) >= 3:
                 return (v[0], ordinal(v[0] if v[0] != "wlout" else "wl", v[1])) + tuple(norm(x, depth) for x in v[3:])
             if v and v[0] == "raised":
-                return ("raised", v[2])
+                # the k-th try statement met (in program order), so that two different try blocks stay two different conditions
+                return ("raised", ordinal("raised", v[1]), v[2])
             return tuple(norm(x, depth) for x in v)
         if isinstance(v, frozenset):
             return frozenset(norm(x, depth) for x in v)
